@@ -71,6 +71,17 @@ def replay(r, verbose=False):
         if verbose:
             print("sequence:", seq_str(q), "\nobserved:", cls, "\ndocumented:", want)
         return cls != want
+    elif r["kind"] == "successor":
+        KINDS = {"caller": "c64:p:cc", "internal": "i"}
+        ops = [KINDS[r["k1"]]] + ["%s%d" % (a, b) for a, b in r["seq"]] + ["d", KINDS[r["k2"]], probe_ops()]
+        obs = hexec.run(["\t".join(ops)], nproc=1, dangerous=True)[0]
+        if hexec.is_crash(obs):
+            return True
+        pr = [o for o in obs if o.startswith("A:")]
+        got = tuple(models.classify_probe(i, hexec.Asm(o).hex) for i, o in enumerate(pr[-4:]))
+        if verbose:
+            print(ops, got)
+        return got != models.expected_probe_classes(models.INIT)
     else:
         h, want = hist_two([tuple(x) for x in r["seq"]])
         obs = hexec.run([h], nproc=1)[0]
@@ -165,6 +176,38 @@ def run(tier, seed):
                          "two instances, history %s: observed %s, documented %s" % (q, got, want))
         rep.distinct_n += len(seqs)
         rep.bounds["two_instance_depth"] = d
+    # --- successor instances: whatever an instance was set to when it was destroyed, the next one starts as documented ----
+    # (all 12 states, reached by setter sequences of depth <= 2; predecessor and successor each with a caller buffer and with
+    #  a library-managed one - a pool or cache of destroyed instances would sit exactly here)
+    KINDS = {"caller": "c64:p:cc", "internal": "i"}
+    want0 = models.expected_probe_classes(models.INIT)
+    seqs = [()] + [(t,) for t in TRANS] + list(itertools.product(TRANS, repeat=2))
+    hs, meta = [], []
+    for q in seqs:
+        for k1 in KINDS:
+            for k2 in KINDS:
+                ops = [KINDS[k1]] + ["%s%d" % (sname, v) for sname, v in q] + ["d", KINDS[k2], probe_ops()]
+                hs.append("\t".join(ops))
+                meta.append((q, k1, k2))
+    res = hexec.run(hs, dangerous=True)
+    reached = set()
+    for (q, k1, k2), obs in zip(meta, res):
+        rep.evaluations += 1
+        rep.traces += 1
+        reached.add(model_after(q))
+        if hexec.is_crash(obs):
+            got = ("crash",)
+        else:
+            pr = [o for o in obs if o.startswith("A:")]
+            got = tuple(models.classify_probe(i, hexec.Asm(o).hex) for i, o in enumerate(pr[-4:]))
+        rep.outcomes.add(("successor", got))
+        if got != want0:
+            rep.fail({"class": "successor", "first": k1, "second": k2, "sequence": seq_str(q)},
+                     ["crash"] if got == ("crash",) else ["probe"], {"kind": "successor", "seq": [list(x) for x in q], "k1": k1, "k2": k2},
+                     "instance (%s) set by [%s] and destroyed, then a new instance (%s): observed %s, documented %s" %
+                     (k1, seq_str(q), k2, got, want0))
+    rep.distinct_n += len(meta)
+    rep.bounds["successor_instances"] = {"histories": len(meta), "predecessor_states_reached": len(reached)}
     rep.sample({"history": seq_str((("a", 0), ("m", 2), ("s", 1))), "model_state": "SMART/NASM/NASM"})
     rep.sample({"history": hist_one((("a", 0), ("b", 99)))})
     rep.sample({"history": hist_two(((0, "a", 0), (1, "m", 1)))[0]})
